@@ -1317,6 +1317,14 @@ ares_status_t ares_send_query(ares_server_t *requested_server,
     /* LCOV_EXCL_STOP */
   }
 
+  /* If this is now the earliest timeout, the event thread must not keep
+   * sleeping on its previous one.  Writing to an already open (idle) UDP
+   * connection does not otherwise wake it. */
+  if (ares_slist_node_first(channel->queries_by_timeout) ==
+      query->node_queries_by_timeout) {
+    ares_event_thread_wake_timeout(channel);
+  }
+
   /* Keep track of queries bucketed by connection, so we can process errors
    * quickly. */
   ares_llist_node_destroy(query->node_queries_to_conn);
